@@ -9,6 +9,8 @@ pub(crate) mod name_tokenizer;
 pub mod rans_4x8;
 pub mod rans_nx16;
 
+use std::io;
+
 /// A CRAM block content encoder.
 #[derive(Clone, Debug)]
 pub enum Encoder {
@@ -28,4 +30,19 @@ pub enum Encoder {
     NameTokenizer,
     /// fqzcomp
     Fqzcomp,
+}
+
+/// Allocates a zero-filled buffer for decoded data.
+///
+/// The length of decoded data is declared in the input and known before any data is decoded. When
+/// it cannot be allocated, this returns an error instead of aborting the process.
+pub(crate) fn alloc_zeroed(len: usize) -> io::Result<Vec<u8>> {
+    let mut buf = Vec::new();
+
+    buf.try_reserve_exact(len)
+        .map_err(|e| io::Error::new(io::ErrorKind::OutOfMemory, e))?;
+
+    buf.resize(len, 0);
+
+    Ok(buf)
 }
